@@ -102,9 +102,12 @@ func Decide(opt Options, rr *RunResult, bl Baseline, findings []Finding) *Verdic
 	v := &Verdict{Prop: opt.Prop}
 	base := bl[opt.Prop]
 	open := map[string]Finding{}
+	openElsewhere := map[string]Finding{} // findings of other properties: they matter here only in used (support) modules
 	for _, f := range findings {
 		if f.Status == "open" && f.Property == opt.Prop {
 			open[f.Finding] = f
+		} else if f.Status == "open" {
+			openElsewhere[f.Finding] = f
 		}
 	}
 	byName := map[string]*Obl{}
@@ -165,6 +168,15 @@ func Decide(opt Options, rr *RunResult, bl Baseline, findings []Finding) *Verdic
 					covered = true
 					v.Known = append(v.Known, fmt.Sprintf("KNOWN-FINDING: property=%s %s [%s, obligation %s]", opt.Prop, f.What, f.Finding, o.Name))
 					v.Findings = append(v.Findings, f)
+				}
+			}
+			if !covered && o.Support {
+				// a used module's clause with a known finding of another property: this property's modules assume
+				// only the restricted form, which holds; the finding is reported by its own property's check
+				for _, ex := range exceptOf[o.Name] {
+					if _, ok := openElsewhere[ex.Finding]; ok && ex.Status == "discharged" {
+						covered = true
+					}
 				}
 			}
 			if covered {
